@@ -8,7 +8,7 @@
 //! Progress is decided on *state*, never on a deadline: a submission is LOST iff a sentinel
 //! operation submitted later has already been returned by the (FIFO) pipeline, the tracker is
 //! empty (every tracked task was marked done — removal happens before the notification), and the
-//! call is still pending after its runtime had idle time to finish it.
+//! call is still pending while its runtime is completely idle (all workers parked, empty queues).
 
 use std::sync::atomic::{AtomicU64, AtomicUsize, Ordering};
 use std::sync::{Arc, Mutex};
@@ -29,6 +29,7 @@ static WINDOW_PAUSES: AtomicU64 = AtomicU64::new(0);
 static HOOK_RNG: AtomicU64 = AtomicU64::new(0x9E3779B97F4A7C15);
 static PAUSE_PERMILLE: AtomicU64 = AtomicU64::new(0);
 static PAUSE_MAX_US: AtomicU64 = AtomicU64::new(200);
+static LATE_RETURNS: AtomicU64 = AtomicU64::new(0);
 
 fn hook(name: &'static str) {
     if name != "task_ready:after_check" {
@@ -68,7 +69,7 @@ struct RoundOutcome {
     dup_submissions: u64,
 }
 
-fn run_round(seed: u64, round: u64, workers: usize, submitters: usize, per: usize) -> RoundOutcome {
+fn run_round(seed: u64, round: u64, workers: usize, submitters: usize, per: usize, herd: bool) -> RoundOutcome {
     let mut rng = Rng::fork(seed, round);
     let rt = tokio::runtime::Builder::new_multi_thread().worker_threads(workers).enable_all().build().expect("runtime");
     rt.block_on(async move {
@@ -83,7 +84,26 @@ fn run_round(seed: u64, round: u64, workers: usize, submitters: usize, per: usiz
         let mut shared_log = HonestLog::new(&mut rng, topic);
         let shared: Vec<Operation> = (0..per.max(2)).map(|i| shared_log.next(Some(&cbor_string(&format!("shared {i}"))), false)).collect();
         let mut dup_submissions = 0;
-        for s in 0..submitters {
+        if herd {
+            // A herd: every submitter pushes the SAME few operations (large bodies, so cloning the
+            // result under the task's lock takes a while) at the same time. Many callers share one
+            // task and enter `ready()` together, before and after the pipeline marked it done.
+            let big: Vec<Operation> = (0..4)
+                .map(|i| {
+                    let mut body = cbor_string(&format!("herd {i} "));
+                    body.extend(std::iter::repeat(0x61u8).take(1_500_000));
+                    // keep it a valid CBOR text: re-encode a long string instead
+                    let text = "a".repeat(1_500_000 + i);
+                    let _ = body;
+                    shared_log.next(Some(&cbor_string(&text)), false)
+                })
+                .collect();
+            for _ in 0..submitters {
+                plans.push(big.iter().map(|op| Sub { op: op.clone(), topic, must_complete: false, must_fail: false }).collect());
+                dup_submissions += big.len() as u64;
+            }
+        }
+        for s in 0..(if herd { 0 } else { submitters }) {
             let mut log = HonestLog::new(&mut rng, topic);
             let mut plan = Vec::new();
             for i in 0..per {
@@ -197,6 +217,50 @@ fn run_round(seed: u64, round: u64, workers: usize, submitters: usize, per: usiz
                 let sentinel2 = tokio::time::timeout(Duration::from_secs(5), pipeline.process(sev2)).await;
                 tokio::time::sleep(Duration::from_millis(200)).await;
                 if sentinel2.is_ok() && returned.load(Ordering::SeqCst) == last {
+                    // Decide on runtime *state*, not on elapsed time (a loaded machine can delay a
+                    // runnable task for seconds): the submitters' runtime must be completely idle
+                    // - every worker parked, nothing in the global queue, and no worker woke up
+                    // while we looked - seen twice 50 ms apart with no call returning. Parked
+                    // workers have empty local queues, the pipeline thread has answered two
+                    // sentinels and has nothing queued, so nothing is left that could wake a
+                    // pending submitter.
+                    let metrics = tokio::runtime::Handle::current().metrics();
+                    let idle_now = || {
+                        let n = metrics.num_workers();
+                        let c1: Vec<u64> = (0..n).map(|w| metrics.worker_park_unpark_count(w)).collect();
+                        let q = metrics.global_queue_depth();
+                        let c2: Vec<u64> = (0..n).map(|w| metrics.worker_park_unpark_count(w)).collect();
+                        q == 0 && c1 == c2 && c1.iter().all(|c| c % 2 == 1)
+                    };
+                    let t_idle = Instant::now();
+                    let mut verdict = None;
+                    while t_idle.elapsed() < Duration::from_secs(40) {
+                        if returned.load(Ordering::SeqCst) != last {
+                            verdict = Some(false);
+                            break;
+                        }
+                        if idle_now() {
+                            tokio::time::sleep(Duration::from_millis(50)).await;
+                            if idle_now() && returned.load(Ordering::SeqCst) == last {
+                                verdict = Some(true);
+                                break;
+                            }
+                        }
+                        tokio::time::sleep(Duration::from_millis(20)).await;
+                    }
+                    match verdict {
+                        Some(false) => {
+                            last = returned.load(Ordering::SeqCst);
+                            stable_since = Instant::now();
+                            LATE_RETURNS.fetch_add(1, Ordering::SeqCst);
+                            continue;
+                        }
+                        None => {
+                            inconclusive = Some(format!("round {round}: calls pending after two sentinels but the runtime never went idle within 40 s (machine overloaded?)"));
+                            break;
+                        }
+                        Some(true) => {}
+                    }
                     let still_tracked = tasks.len().await;
                     let p = pending.lock().unwrap().clone();
                     for e in p.into_iter().flatten() {
@@ -225,7 +289,7 @@ pub fn run(args: &Args) {
         args,
         "rounds of 1..16 submitter tasks (2..8 runtime workers) each pushing 8..40 operations through \
          the real Pipeline::process: own valid logs (must complete), the same shared operations from \
-         several submitters (concurrent duplicates), forged operations (must fail); hook pauses 0..200us \
+         several submitters (concurrent duplicates), forged operations (must fail); 25% 'herd' rounds in which 6..16 submitters push the same four 1.5 MB operations simultaneously (many callers share one task); hook pauses 0..200us \
          between the result check and the wait registration with p in {0, 0.1, 1}. Non-trivial = a \
          round in which some submitter reached the check-to-wait window (hook entries > 0) and \
          duplicates were submitted; distinct by the global return order of the round.",
@@ -244,7 +308,11 @@ pub fn run(args: &Args) {
         let submitters = 1 + rng.usize_below(16);
         let per = 8 + rng.usize_below(33);
         let entries_before = WINDOW_ENTRIES.load(Ordering::Relaxed);
-        let out = run_round(args.seed, r, workers, submitters, per);
+        let herd = rng.chance(0.25) || args.param("herd").is_some();
+        let out = run_round(args.seed, r, workers, submitters.max(if herd { 6 } else { 1 }), per, herd);
+        if herd {
+            rep.bump("herd_rounds", 1);
+        }
         let entries = WINDOW_ENTRIES.load(Ordering::Relaxed) - entries_before;
         total_sub += out.submissions;
         total_ret += out.returned;
@@ -272,6 +340,7 @@ pub fn run(args: &Args) {
     rep.extra("submissions", json!(total_sub));
     rep.extra("returned", json!(total_ret));
     rep.extra("hook_window_entries", json!(WINDOW_ENTRIES.load(Ordering::Relaxed)));
+    rep.extra("late_returns_after_two_sentinels_not_judged", json!(LATE_RETURNS.load(Ordering::Relaxed)));
     rep.extra("hook_pauses_injected", json!(WINDOW_PAUSES.load(Ordering::Relaxed)));
     if WINDOW_ENTRIES.load(Ordering::Relaxed) == 0 {
         rep.inconclusive("hook task_ready:after_check was never reached");
